@@ -14,7 +14,7 @@ RULE = ("Each shard keeps 3 persistent worker PROCESSES started with distinct PY
         "VERIF_SEED and the shard: 48 distinct seeds per run) plus its own process (hash seed 0).  Every generated case "
         "(expression over 3-6 multi-character variable names, point) is sent to all of them, each with its own generated "
         "permutation of the coordinate order and of the order in which the Variable objects are first created.  Battery "
-        "per process: at, _normalize, 11 numeric derivative routes and 3 as_expression routes for every variable, reprs.  "
+        "per process: at, _normalize, 6 numeric derivative routes (early and late) and 2 as_expression routes (forward and reverse symbolic) for up to 3 variables, repr.  "
         "Oracle: all processes' answers are identical byte for byte (float.hex of numbers, repr of expressions, exception "
         "class names).  Non-trivial = >= 3 variables occur and some answer is an expression or a gradient component of a "
         "multi-variable expression; distinct by SHA-1 of (canonical model, point).")
@@ -37,10 +37,12 @@ class Workers:
                                  stderr=subprocess.DEVNULL, env=env, cwd=VERIF, text=True, bufsize=1)
             self.procs.append(p)
 
-    def ask(self, payloads):
+    def send(self, payloads):
         for p, payload in zip(self.procs, payloads):
             p.stdin.write(json.dumps(payload) + "\n")
             p.stdin.flush()
+
+    def receive(self):
         outs = []
         for p in self.procs:
             line = p.stdout.readline()
@@ -92,8 +94,9 @@ def check(stats, m, names, point, orders, sub="reproducible", seeds=None):
     w = workers_for(stats, seeds)
     case = make_case(sub, m, point, names=names, orders=orders, hash_seeds=list(w.seeds))
     payloads = [payload(m, names, o["point"], point, o["creation"]) for o in orders]
+    w.send(payloads[1:1 + NWORKERS])
     local = {"ok": c18worker.battery(payloads[0])}
-    remote = w.ask(payloads[1:1 + NWORKERS])
+    remote = w.receive()
     answers = [local] + remote
     for a in answers:
         if "error" in a:
@@ -149,9 +152,26 @@ def make_general(stats):
     return test
 
 
+def make_extreme(stats):
+    """Zero, huge and tiny coordinates: several sub-computations fail in different ways (DomainError vs
+    OverflowError), so any order dependence of 'which failure surfaces first' becomes observable."""
+    @given(st.data())
+    def test(data):
+        k = data.draw(st.integers(3, 5))
+        names = data.draw(st.permutations(VARS))[:k]
+        m = data.draw(S.covering(names, depth=1, tags=("Multiply", "Divide", "Add", "Reciprocal", "NthPower", "Logarithm",
+                                                        "NthRoot", "Minus", "Power", "Exponential")))
+        vals = [0, 0.0, 1e-200, -1e-180, 1e200, -1e150, 1, 2, -1, 1e-308, 3.5]
+        point = {n: data.draw(st.sampled_from(vals)) for n in names}
+        orders = [{"point": list(data.draw(st.permutations(names))), "creation": list(data.draw(st.permutations(names)))}
+                  for _ in range(NWORKERS + 1)]
+        check(stats, m, names, point, orders, sub="extreme")
+    return test
+
+
 def parts(tier):
-    n = 640 if tier == "quick" else 30000
-    return [hyp_part("general", make_general, n)]
+    n = 1000 if tier == "quick" else 30000
+    return [hyp_part("general", make_general, int(n * 0.7)), hyp_part("extreme", make_extreme, int(n * 0.3))]
 
 
 def replay(case):
